@@ -220,7 +220,7 @@ func H_C12_alias(t *verifrt.T) {
 		t.Assume(verifrt.And(body[i] >= 'a', body[i] <= 'z'))
 	}
 	data := append([]byte(`{"s":"`), body...)
-	data = append(data, `","r":[1]}`...)
+	data = append(data, `","r":[1],"b":"QUJD"}`...)
 	slack := t.Choice("cap-slack", 2)
 	buf := make([]byte, len(data), len(data)+slack)
 	copy(buf, data)
@@ -238,6 +238,18 @@ func H_C12_alias(t *verifrt.T) {
 	}
 	t.Assert("raw-value", string(v.R) == "[1]")
 	t.Assert("raw-not-aliasing-input", !t.SameObject(unsafe.Pointer(&v.R[0]), unsafe.Pointer(&buf[0])))
+	// the base64 member is the caller's own memory up to its capacity: writing all of it
+	// does not disturb the other results
+	t.Assert("bytes-value", string(v.B) == "ABC")
+	full := v.B[:cap(v.B)]
+	for i := range full {
+		full[i] = '#'
+	}
+	t.Assert("results-independent-of-writes-to-the-bytes-member", verifrt.And(v.S == string(body), string(v.R) == "[1]"))
+	if len(v.B) > 0 && n > 0 {
+		t.Assert("bytes-not-aliasing-input", !t.SameObject(unsafe.Pointer(&v.B[0]), unsafe.Pointer(&buf[0])))
+	}
+	v.B = nil
 	// marshal side: the returned slice is not the pooled buffer: a second Marshal must not change the first result
 	out1, err1 := Marshal(&v)
 	keep := append([]byte{}, out1...)
